@@ -32,6 +32,14 @@ package posix
 //@ func (*Posix) ListParts
 //@   at-call sort.Slice {C08} [every-part-file-was-looked-at-before-the-page-is-cut] requires rangedone(ents)
 
+// ---- C08: parts and uploads in progress never show up as objects (two open findings, see known_findings.json) ----
+// HeadObject with a part number answers from the staging area of an upload in progress of that key; GetObject opens
+// whatever path the key spells, also one below the bucket's bookkeeping directory.
+//@ func (*Posix) HeadObject
+//@   at-call? posix.Posix.retrieveUploadId {C08} [an-object-request-does-not-look-into-uploads-in-progress] requires false
+//@ func (*Posix) GetObject
+//@   at-call os.Open {C08} [the-key-does-not-point-into-the-bookkeeping-directory] requires versionId != "" || !strings.HasPrefix(*input.Key, metaTmpDir + "/")
+
 // ---- C10: retention overwrite rules ---------------------------------------------------
 // The retention attribute of an object version is (re)written only when none exists yet, or the
 // existing one is not COMPLIANCE and, if GOVERNANCE, the caller's bypass was granted. (The gateway
